@@ -1,5 +1,33 @@
 /-
   C20 — Flavour conversion and Waiwera export keep the model, drop only what they say.
+
+  Property theorems about `Model/Convert.lean` (model of t2data.convert_to_TOUGH2 / convert_to_AUTOUGH2 /
+  the `type` setter / section bookkeeping / add_,delete_generator) and `Model/Waiwera.lean` (model of the
+  EOS, rock-cell, boundary-set and source parts of t2data.json).  Proofs are in Proofs/Convert*.lean.
+
+  Clause of the property                                   theorem(s)
+  ------------------------------------------------------   ---------------------------------------------
+  declares itself TOUGH2, nothing AUTOUGH2-specific         to_tough2_declares_tough2, to_tough2_no_autough2_sections,
+    (simulator, LINEQ, SHORT sections, EOS name)              to_tough2_other_sections, to_tough2_succeeds
+  no generator of a type TOUGH2 lacks; convertible          to_tough2_generators, to_tough2_lookup,
+    converted, the rest deleted from list and lookup          to_tough2_list_lookup_consistent
+  grid, rock types (apart from the conductivity             to_tough2_keeps_grid_and_history, to_tough2_rocks,
+    rescaling), remaining generators, history unchanged       params_a2t_rocks
+  (MOP option digits 0..9 in every position, MP on/off)     to_tough2_mop + mop_a2t_matches_code, to_autough2_mop + mop_t2a_matches_code
+  the reverse conversion is the mirror image                to_autough2_declares_autough2, to_autough2_sections, to_autough2_keeps_model,
+                                                              to_autough2_short, to_autough2_succeeds, to_autough2_requests_kept_partial (*)
+  type property triggers conversion                         type_setter_dispatch
+  the converted model survives a file round trip            converted_sections_ordered, section_ops_keep_order,
+                                                              to_tough2_history_roundtrip_partial (*); bytes: oracle on the real write()/read()
+  every non-boundary block in exactly one rock cell list    rock_cells_partition, rock_cells_own_type_exists, boundary_blocks_complement
+  every source has the cell index of its block;             sources_spec, source_cell_is_block_index
+    one source per non-group generator
+  EOS from the EOS entry or the simulator string            eos_explicit, eos_from_multi, eos_from_simulator, eos_detected_from_simulator
+
+  (*) partial: the two GOFT clauses are false on the real code (known findings
+  `goft-generator-request-lost-on-roundtrip`, `goft-block-request-dropped-to-autough2`); the proved
+  statements carry the excluded class as a decidable hypothesis and `goft_generator_request_lost`,
+  `goft_block_request_dropped` prove the failure on a concrete witness.
 -/
 import PyTough.Proofs.ConvertSpec
 import PyTough.Proofs.ConvertWaiwera
